@@ -553,9 +553,26 @@ func (p *jsonPathParser) _createBasicCompareQuery(
 	}
 }
 
+// compareParameterRank orders the operands of a comparison:
+// the current node (@) < the root node ($) < a literal.
+func (p *jsonPathParser) compareParameterRank(param *syntaxBasicCompareParameter) int {
+	if _, ok := param.param.(*syntaxQueryParamLiteral); ok {
+		return 2
+	}
+	if param.isLiteral {
+		return 1
+	}
+	return 0
+}
+
+// isSwapRequired reports whether the left operand has to move to the right side.
+func (p *jsonPathParser) isSwapRequired(leftParam, rightParam *syntaxBasicCompareParameter) bool {
+	return p.compareParameterRank(leftParam) > p.compareParameterRank(rightParam)
+}
+
 func (p *jsonPathParser) pushCompareEQ(
 	leftParam, rightParam *syntaxBasicCompareParameter) {
-	if leftParam.isLiteral {
+	if p.isSwapRequired(leftParam, rightParam) {
 		rightParam, leftParam = leftParam, rightParam
 	}
 
@@ -593,7 +610,7 @@ func (p *jsonPathParser) pushCompareNE(
 
 func (p *jsonPathParser) pushCompareGE(
 	leftParam, rightParam *syntaxBasicCompareParameter) {
-	if leftParam.isLiteral {
+	if p.isSwapRequired(leftParam, rightParam) {
 		p.pushCompareLE(rightParam, leftParam)
 		return
 	}
@@ -602,7 +619,7 @@ func (p *jsonPathParser) pushCompareGE(
 
 func (p *jsonPathParser) pushCompareGT(
 	leftParam, rightParam *syntaxBasicCompareParameter) {
-	if leftParam.isLiteral {
+	if p.isSwapRequired(leftParam, rightParam) {
 		p.pushCompareLT(rightParam, leftParam)
 		return
 	}
@@ -611,7 +628,7 @@ func (p *jsonPathParser) pushCompareGT(
 
 func (p *jsonPathParser) pushCompareLE(
 	leftParam, rightParam *syntaxBasicCompareParameter) {
-	if leftParam.isLiteral {
+	if p.isSwapRequired(leftParam, rightParam) {
 		p.pushCompareGE(rightParam, leftParam)
 		return
 	}
@@ -620,7 +637,7 @@ func (p *jsonPathParser) pushCompareLE(
 
 func (p *jsonPathParser) pushCompareLT(
 	leftParam, rightParam *syntaxBasicCompareParameter) {
-	if leftParam.isLiteral {
+	if p.isSwapRequired(leftParam, rightParam) {
 		p.pushCompareGT(rightParam, leftParam)
 		return
 	}
